@@ -12,6 +12,9 @@ CLAIMED = {
  'C05': ("runtime monitor: independent spec-level encoders -> real decoders (differential against the original bytes), exhaustive sub-domains, corruption fuzzing under a panic monitor",
          "Random (data, filter chain <=3, predictor geometry, spelling choices) cases encoded by independent encoders and decoded by the real code through enc::decode, Stream::data and a generated file; exhaustive over hex digit pairs, run-length headers, all 2^24 Paeth triples, ASCII85 groups (2^20 stratified quick, all 2^32 thorough) and partial groups; truncated/corrupted encodings must yield value or Err. Held on the executions observed.",
          "Trusts the reference encoders (self-checked per case against own decoders and miniz_oxide); LZW encoders restricted to initial clear code and table reset at <= 4094 entries.", "5/C05"),
+ 'C03': ("runtime monitor: randomized specification-conformant printer (value = oracle) -> real parser; exhaustive token-adjacency matrix; tape shrinking to minimal feature labels",
+         "Values of every Primitive kind printed with every legal spelling choice (white-space kinds, comments with LF/CR/CRLF ends, no separator where legal, literal-string escapes/octal/continuations/balanced parens/raw EOLs, hex strings with white-space and odd digits, #xx names, signed/leading-zero/fraction-only numbers, references, LF/CRLF after `stream`) and parsed by parser::parse / parse_with_lexer (sequences, Lexer::get_pos checked) / parse_indirect_object / parse_stream; exhaustive 15x15 token kinds x 12 separators x 3 contexts, all 256 one-byte strings per spelling, all #xx names. Held on the executions observed.",
+         "Trusts harness/src/printer.rs to emit only ISO 32000-1 conformant spellings; names limited to valid UTF-8 without NUL; reals to <= 7 significant digits (compared within 1 ulp).", "5/C03"),
 }
 NOT_YET = "check not built yet in this round (planned, see DESIGN.md §5)"
 
